@@ -475,7 +475,7 @@ def queries(tier):
     key = tier
     if key not in _cache:
         _cache[key] = enumerate_states(depth=2, walks=100 if not T else 1500, walk_len=6 if not T else 9,
-                                       seed=20260929, limit=110 if not T else 1300)
+                                       seed=20260929, limit=110 if not T else 800)
     out = []
     N = 5
     hists, n_same, n_cand = _cache[key]
